@@ -2,7 +2,7 @@
 """
 Seeded-change bookkeeping.
 
-  tools/seeded.py verify <Cnn> <k> [--src DIR]   confirm a sub-agent's change (DIR/patch<k>.diff, demo<k>.py,
+  tools/seeded.py verify <Cnn> <k> [--src DIR] [--as K2]  confirm a sub-agent's change (DIR/patch<k>.diff, demo<k>.py,
                                                  notes<k>.md; default DIR=/tmp/mut_<Cnn>_out) in a scratch worktree:
                                                  demo passes without / fails with the change, the 82 pinned tests still
                                                  pass; then run the check against it and store everything under
@@ -89,7 +89,7 @@ def run_check(prop, wt, tier="quick", seed=0):
             "tail": out[-600:], "replay_excerpt": json.dumps(replay, default=str)[:1200] if replay else None}
 
 
-def verify(prop, k, src=None):
+def verify(prop, k, src=None, store_as=None):
     src = Path(src or f"/tmp/mut_{prop}_out")
     patch, demo, notes = src / f"patch{k}.diff", src / f"demo{k}.py", src / f"notes{k}.md"
     if not patch.exists() or not demo.exists():
@@ -113,7 +113,7 @@ def verify(prop, k, src=None):
             meta["check"] = run_check(prop, wt)
             meta["caught"] = meta["check"]["exit"] == 1 and bool(meta["check"]["violation_lines"])
     if meta["confirmed"]:
-        d = V / "seeded" / f"{prop}-{k}"
+        d = V / "seeded" / f"{prop}-{store_as or k}"
         d.mkdir(parents=True, exist_ok=True)
         shutil.copy(patch, d / "patch.diff")
         shutil.copy(demo, d / "demo.py")
@@ -175,7 +175,8 @@ if __name__ == "__main__":
     a = sys.argv[1:]
     if a and a[0] == "verify":
         src = a[a.index("--src") + 1] if "--src" in a else None
-        sys.exit(0 if verify(a[1], a[2], src) else 1)
+        store_as = a[a.index("--as") + 1] if "--as" in a else None
+        sys.exit(0 if verify(a[1], a[2], src, store_as) else 1)
     elif a and a[0] == "run":
         rerun(a[1:])
     elif a and a[0] == "table":
